@@ -43,7 +43,15 @@ def live_case(spec, log):
         server = spawn_server(('127.0.0.1', 0))
         kw['host'] = server.addr
     beh = spec['behaviour']
-    target, args = {'coop': ('py_loop', [md, None]), 'swallow': ('swallow_loop', [md]), 'sleep': ('sleep_c', [40]), 'gil': ('hold_gil', [25]), 'stopped': ('py_loop', [md, None])}[beh]
+    import signal as _signal
+    got_sigterm = []
+
+    def on_sigterm(signum, frame):
+        # a worker call must never take the calling process down with it
+        got_sigterm.append(time.monotonic())
+        log.ev('caller_signalled', sig='SIGTERM')
+    _signal.signal(_signal.SIGTERM, on_sigterm)
+    target, args = {'slowres': ('partial_on_terminate', [md, 0.4]), 'coop': ('py_loop', [md, None]), 'swallow': ('swallow_loop', [md]), 'sleep': ('sleep_c', [40]), 'gil': ('hold_gil', [25]), 'stopped': ('py_loop', [md, None])}[beh]
     if pers:
         w = cls(getattr(vtargets, target), **kw)
         w.enqueue(*args)
@@ -54,7 +62,7 @@ def live_case(spec, log):
     log.ev('created', pid=pid, own_process=own)
     # let the target get going (marker or settle)
     t0 = time.monotonic()
-    while time.monotonic() - t0 < 5 and beh in ('coop', 'swallow', 'stopped') and not os.path.exists(os.path.join(md, 'entered')):
+    while time.monotonic() - t0 < 5 and beh in ('coop', 'swallow', 'stopped', 'slowres') and not os.path.exists(os.path.join(md, 'entered')):
         time.sleep(0.01)
     time.sleep(spec.get('settle', 0.3))
     if beh == 'stopped':
@@ -124,6 +132,11 @@ def live_matrix(tier):
                     ops += [dict(op='wait', timeout=0), dict(op='terminate', timeout=0, force=False if thread else True)]
                     jobs.append(dict(cls=cls, behaviour=beh, ops=ops, t=t, force=force))
         if not thread:
+            # a co-operative target that returns its partial work when terminated; the value takes 0.4 s to rebuild in the parent,
+            # i.e. the parent side is still receiving when the child is already gone
+            for t in (0, 0.05, 0.2):
+                for force in (True, False):
+                    jobs.append(dict(cls=cls, behaviour='slowres', t=t, force=force, ops=[dict(op='terminate', timeout=t, force=force), dict(op='wait', timeout=2), dict(op='is_alive'), dict(op='terminate', timeout=0, force=True)]))
             # a stopped child that is resumed while a later call is in progress (requests of earlier, timed-out calls are still unread)
             tail = [dict(op='wait', timeout=0), dict(op='terminate', timeout=0, force=True)]
             for ca in (0.05, 0.15, 0.4):
@@ -145,6 +158,10 @@ def judge_live(chk, spec, res):
     thread = 'Thread' in cls
     durs = [e for e in evs if e.get('ev') in ('return', 'raise') and e.get('name') in ('wait', 'terminate', 'is_alive')]
     calls = [e for e in evs if e.get('ev') == 'call' and e.get('name') in ('wait', 'terminate', 'is_alive')]
+    if any(e.get('ev') == 'caller_signalled' for e in evs):
+        chk.violation('call-signalled-the-calling-process:%s:%s' % (kind_of(cls), beh), '%s target=%s: a call of %s sent SIGTERM to the calling process' % (cls, beh, [(a['op'], a['args']) for a in afters][:4]),
+                      {'spec': spec, 'calls': afters})
+        return
     seen_dead = False
     for i, a in enumerate(afters):
         op, args = a['op'], a['args']
